@@ -222,7 +222,7 @@ pub fn run(ctx: &mut Ctx) {
     let seed = ctx.seed;
 
     // ---- (1) cut / perturb enumeration ------------------------------------------------------
-    let per_type = if ctx.slow_tool { 1 } else { tier.pick(12u64, 80u64) };
+    let per_type = if ctx.slow_tool { 1 } else { tier.pick(60u64, 500u64) };
     for ci in 0..42 * per_type {
         if !ctx.take("cut", ci) {
             continue;
@@ -289,6 +289,9 @@ pub fn run(ctx: &mut Ctx) {
                     if !ctx.take("tail", idx) {
                         continue;
                     }
+                    if ctx.stop("tail") {
+                        break;
+                    }
                     let mut b = vec![0u8; 12];
                     b[5 + 2 * sec] = 1;
                     for d in digits(k, 10, l) {
@@ -301,7 +304,7 @@ pub fn run(ctx: &mut Ctx) {
         ctx.sample("tail", || json!({"alphabet": hex(&alpha), "max_len": l_max, "sections": 4}));
     }
     if ctx.family_active("rdbody") {
-        let l_max = if ctx.slow_tool { 1 } else { tier.pick(4usize, 5usize) };
+        let l_max = if ctx.slow_tool { 1 } else { tier.pick(4usize, 6usize) };
         let mut idx = 0u64;
         let mut codes: Vec<u16> = TYPED_CODES.to_vec();
         codes.push(10);
@@ -313,6 +316,9 @@ pub fn run(ctx: &mut Ctx) {
                     idx += 1;
                     if !ctx.take("rdbody", idx) {
                         continue;
+                    }
+                    if ctx.stop("rdbody") {
+                        break;
                     }
                     // header, ANCOUNT=1 (ARCOUNT for OPT), root owner, type, class IN, ttl 0, RDLENGTH l, body
                     let mut b = vec![0u8; 12];
@@ -347,6 +353,9 @@ pub fn run(ctx: &mut Ctx) {
         for idx in 0..total * 4 {
             if !ctx.take("ptrgraph", idx) {
                 continue;
+            }
+            if ctx.stop("ptrgraph") {
+                break;
             }
             let mut k = idx;
             let idv = ids[(k % 4) as usize];
@@ -397,7 +406,7 @@ pub fn run(ctx: &mut Ctx) {
 
     // ---- (6) havoc ----------------------------------------------------------------------------
     if ctx.family_active("havoc") {
-        let n = if ctx.slow_tool { 640 } else { tier.pick(300_000u64, 12_000_000u64) };
+        let n = if ctx.slow_tool { 160 } else { tier.pick(3_000_000u64, 250_000_000u64) };
         let samples = sample_file_messages();
         for idx in 0..n {
             if !ctx.take("havoc", idx) {
